@@ -37,6 +37,7 @@ def run(cx, tier='quick'):
     from . import c13_param, c13_sel
     c13_param.check(cx, facts, rep)
     c13_sel.check(cx, facts, rep)
+    check_field_scan_coverage(cx, facts, rep)
     rep.floor('SCAN', 90, '(24 scanners × ≥4 obligations)')
     rep.floor('COUPLE', 3)
     rep.assumptions += ['syn::Attribute/Meta parsing', 'documented acceptance table (README / crate docs) as transcribed in sa/props/c13_param.py']
@@ -288,3 +289,48 @@ def include_own_parsers(cx, facts, rep, needles):
     for b in sub.broken:
         if b not in rep.broken and 'floor' not in b:
             rep.broken.append(b)
+
+
+def check_field_scan_coverage(cx, facts, rep):
+    """COVER: every handler passes the attributes of *every* field through its trait's field scanner (that is where attributes of
+    unknown, disabled or un-educed traits and misplaced parameters are refused).  Where the handler treats a single-field type /
+    variant or the named / tuple shapes in separate branches, each branch needs its own scan."""
+    from .c13_flags import builder_sites
+    by = {}
+    for st in builder_sites(cx):
+        if st.level == 'field':
+            by.setdefault(id(st.fn), (st.fn, []))[1].append(st)
+    for fn in cx.handler_fns():
+        if id(fn) in getattr(cx.crate, 'fully_inlined', ()):
+            continue
+        if id(fn) not in by:
+            # dispatchers (mod.rs) that only forward to per-shape handlers have no fields to scan
+            fw = cx.fw(fn)
+            forwards = any(ev.kind == 'call' and ev.path and ev.path.split('::')[-1] == 'trait_meta_handler' for ev in fw.events)
+            if not forwards:
+                rep.bad('COVER', fn.qname, 'no-field-scan', 'the handler never passes field attributes to its field scanner: attributes of unknown / disabled / un-educed traits on fields go unnoticed', fn.file, fn.line)
+            continue
+        fn, sites = by[id(fn)]
+        fw = cx.fw(fn)
+        infos = []
+        for st in sites:
+            at = [a for a in facts.atoms(st.ev.ctx, fw) if a[0] in ('len', 'shape')]
+            infos.append((st, at))
+        ok = True
+        for st, at in infos:
+            for a in at:
+                if a[0] == 'len' and isinstance(a[1], tuple) and a[1][0] == 'field' and a[1][2] in ('fields', 'named', 'unnamed'):
+                    rest = [x for x in at if x is not a]
+                    opp = a[:-1] + (not a[-1],)
+                    if not any(opp in at2 and all(x in at2 for x in rest if x[0] == 'len') for _, at2 in infos):
+                        rep.bad('COVER', fn.qname, 'len-branch@%d' % st.ev.line,
+                                'field attributes are scanned only when %s: in the other branch the fields are not passed through the field scanner' % atom_s(a)[:80], fn.file, st.ev.line)
+                        ok = False
+                if a[0] == 'shape' and a[3] is True and a[2] in ('Named', 'Unnamed'):
+                    other = 'Unnamed' if a[2] == 'Named' else 'Named'
+                    if not any(any(x[0] == 'shape' and x[1] == a[1] and x[2] == other and x[3] is True for x in at2) for _, at2 in infos):
+                        rep.bad('COVER', fn.qname, 'shape-branch@%d' % st.ev.line, 'field attributes are scanned for %s fields only' % a[2], fn.file, st.ev.line)
+                        ok = False
+        if ok:
+            rep.ok('COVER', '%s|%d field-scan sites cover every branch' % (fn.qname, len(sites)))
+    rep.floor('COVER', 25, '(33 handlers today)')
